@@ -33,6 +33,8 @@ TEMPLATES = {
     "repeated": (["double RES = P1 * 4 + P1 * 4 + P2 + P2 - P2;"], lambda a, b: a * 8 + b),
     "multi-line": (["double first = P1;", "double second = P2;", "first = first * 8;", "double RES = first + second;"], lambda a, b: a * 8 + b),
     "parenthesised-use": (["double RES = (P1) * 8 + (P2);"], lambda a, b: a * 8 + b),
+    # no blanks anywhere: every parameter occurrence touches an operator character ( > < = & | * + ; ( ) ) on both sides
+    "tight": (["double RES=P1*8+P2;", "if(P1>P2)RES=P2+P1*8;", "if(P1<=P2&&P2>=P1)RES=8*P1+P2;", "if(!(P1<P2)||P2>P1)RES=P1*8+P2;"], lambda a, b: a * 8 + b),
 }
 ARGS = ["1", "2.5", "j.pt()", "j.eta()", "j.y()", "j.nTrk()", "(j.pt() + 1)"]
 
@@ -67,7 +69,7 @@ def build(backend, tier):
             cases[-1]["prior"] = prior
     # ---- 2-parameter functions: all ordered pairs of distinct parameter names x templates x argument pairs
     pairs = list(itertools.permutations(PARAMS, 2))
-    tmpl_names = list(TEMPLATES) if tier != "quick" else ["plain", "neighbours", "repeated"]
+    tmpl_names = list(TEMPLATES) if tier != "quick" else ["plain", "neighbours", "repeated", "tight"]
     arg_pairs = list(itertools.product(ARGS, repeat=2)) if tier != "quick" else [("j.eta()", "j.pt()"), ("j.y()", "2.5"), ("1", "j.eta()"), ("(j.pt() + 1)", "j.nTrk()")]
     for (p1, p2) in pairs:
         for tn in tmpl_names:
